@@ -1,8 +1,9 @@
 """Scratch-copy mutations used to test the checks both ways."""
 MUTATIONS = []
 
-def M(prop, name, file, old, new, rule=None, kind="break"):
-    MUTATIONS.append({"prop": prop, "name": name, "file": file, "old": old, "new": new, "rule": rule, "kind": kind})
+def M(prop, name, file, old, new, rule=None, kind="break", first=False):
+    """first=True: the pattern may occur several times (twin functions); only its first occurrence is edited"""
+    MUTATIONS.append({"prop": prop, "name": name, "file": file, "old": old, "new": new, "rule": rule, "kind": kind, "first": first})
 
 EP = "src/ps_endpointer.c"
 # ---- C15 ----------------------------------------------------------------------
@@ -997,3 +998,131 @@ M("C18", "cmn repr: import sets nframe to HWM", "src/cmn.c", """    ckd_free(val
     cmn->nframe = CMN_WIN_HWM;""", "REPR")
 M("C18", "cmn repr: import bound dropped", "src/cmn.c", """    while (nvals < cmn->veclen
            && (cc = strchr(c, ',')) != NULL) {""", """    while ((cc = strchr(c, ',')) != NULL) {""", "REPR")
+
+# ---- C17 ----------------------------------------------------------------------
+M("C17", "tmat: revert double-free fix", "src/tmat.c", "    ckd_free_2d(tp);\n    tp = NULL;\n", "    ckd_free_2d(tp);\n", "UNWIND")
+M("C17", "ms_mgau: revert NULL senone test", "src/ms_mgau.c", """    if ((s = msg->s = senone_init(msg->g,
+                                  config_str(config, "mixw"),
+                                  config_str(config, "senmgau"),
+                                  config_float(config, "mixwfloor"),
+                                  lmath, mdef))
+        == NULL) {
+        E_ERROR("Failed to read mixture weights\\n");
+        goto error_out;
+    }
+""", """    s = msg->s = senone_init(msg->g,
+                                  config_str(config, "mixw"),
+                                  config_str(config, "senmgau"),
+                                  config_float(config, "mixwfloor"),
+                                  lmath, mdef);
+""", "ERRD.null")
+M("C17", "ptm: sendump_mmap set after read (revert)", "src/ptm_mgau.c", """        s->sendump_mmap = s3file_retain(sendump);
+        if (read_sendump(sendump, s->g, s->n_sen,
+                         &s->mixw_cb, &s->mixw)
+            < 0)
+            goto error_out;
+""", """        if (read_sendump(sendump, s->g, s->n_sen,
+                         &s->mixw_cb, &s->mixw)
+            < 0)
+            goto error_out;
+        s->sendump_mmap = s3file_retain(sendump);
+""", "UNWIND.partial")
+M("C17", "mdef_init: version mismatch fatal again", "src/mdef.c", """        E_ERROR("Version error: Expecing %s, but read %s\\n",
+                MODEL_DEF_VERSION, buf);
+        fclose(fp);
+        ckd_free(m);
+        return NULL;
+    }""", """        E_FATAL("Version error: Expecing %s, but read %s\\n",
+                MODEL_DEF_VERSION, buf);
+    }""", "EXIT.loader")
+M("C17", "s3file_get_1d: fatal on zero size again", "src/s3file.c", """    if (*n_el == 0 || *n_el > (size_t)(s->end - s->ptr) / el_sz) {
+        E_ERROR("Bad arraysize: %u\\n", *n_el);
+        return -1;
+    }""", """    if (*n_el <= 0)
+        E_FATAL("Bad arraysize: %d\\n", *n_el);""", "EXIT.loader")
+M("C17", "s3file_get_2d: dimension test dropped", "src/s3file.c", """    if (n != l_d1 * l_d2) {
+        E_ERROR("array size %u does not match dimensions %u x %u\\n",
+                n, l_d1, l_d2);
+        ckd_free(raw);
+        return -1;
+    }
+""", "", "INDEX.value")
+M("C17", "s3file_get_3d: result compared with its own out-parameter", "src/s3file.c", """    if (s3file_get_1d(&raw, e_sz, &n, s) < 0) {
+        E_ERROR("get(arraydata) failed");
+        return -1;
+    }
+    if (n != l_d1 * l_d2 * l_d3) {""", """    if (s3file_get_1d(&raw, e_sz, &n, s) != (int32)n) {
+        E_ERROR("get(arraydata) failed");
+        return -1;
+    }
+    if (n != l_d1 * l_d2 * l_d3) {""", "INDEX.value")
+M("C17", "bin_mdef_free: ciname test dropped", "src/bin_mdef.c", """        if (m->ciname)
+            ckd_free(m->ciname[0]);
+        if (m->sseq)""", """        ckd_free(m->ciname[0]);
+        if (m->sseq)""", "UNWIND.partial")
+M("C17", "bin_mdef: n_ciphone lower bound dropped", "src/bin_mdef.c", "    if (m->n_ciphone <= 0 || m->n_phone < m->n_ciphone", "    if (m->n_phone < m->n_ciphone", "TAINT.lower")
+M("C17", "bin_mdef: n_sseq lower bound dropped", "src/bin_mdef.c", "|| m->n_tmat <= 0 || m->n_sseq <= 0 || m->n_sseq > BAD_SSID", "|| m->n_tmat <= 0 || m->n_sseq > BAD_SSID", "TAINT.lower")
+M("C17", "bin_mdef: header length lower bound dropped", "src/bin_mdef.c", "    if (val < 0 || val > s->end - s->ptr) {", "    if (val > s->end - s->ptr) {", "TAINT.lower")
+M("C17", "bin_mdef: header length not compared with the end", "src/bin_mdef.c", "    if (val < 0 || val > s->end - s->ptr) {", "    if (val < 0) {", "CURSOR")
+M("C17", "bin_mdef: senone index test dropped", "src/bin_mdef.c", """            if (s >= m->n_sen) {
+                E_ERROR("Senone sequence %d has bad senone %d\\n", ssid, s);
+                goto error_out;
+            }
+""", "", "INDEX.value")
+M("C17", "bin_mdef: ssid test dropped", "src/bin_mdef.c", "        if (ssid < 0 || ssid >= m->n_sseq || ci >= m->n_ciphone) {", "        if (ci >= m->n_ciphone) {", "INDEX.value")
+M("C17", "sendump: header length lower bound dropped", "src/ptm_mgau.c", "    if (n < 1 || s3f->ptr + n > s3f->end) {", "    if (s3f->ptr + n > s3f->end) {", "TAINT.lower")
+M("C17", "sendump: string length lower bound dropped", "src/ptm_mgau.c", "        if (n < 0 || s3f->ptr + n > s3f->end) {", "        if (s3f->ptr + n > s3f->end) {", "TAINT.lower")
+M("C17", "sendump: rows test dropped", "src/ptm_mgau.c", "        if (r != n_density || c < n_sen) {", "        if (c < n_sen) {", "INDEX.dims")
+M("C17", "sendump: title end test dropped", "src/ptm_mgau.c", """    if (s3f->ptr + n > s3f->end) {
+        E_ERROR("Title truncated, cannot read %d bytes", n);
+        return -1;
+    }
+""", "", "CURSOR")
+M("C17", "gauden: density read failure falls through + counts unchecked", "src/ms_gauden.c", """    if (n_mgau <= 0 || n_feat <= 0 || n_density <= 0) {
+        E_ERROR("Bad dimensions: %d codebooks, %d features, %d densities\\n",
+                n_mgau, n_feat, n_density);
+        return NULL;
+    }
+""", "", "TAINT.lower")
+M("C17", "gauden: failed read of feature lengths ignored", "src/ms_gauden.c", """        E_ERROR("read (feature-lengths) failed\\n");
+        return NULL;""", """        E_ERROR("read (feature-lengths) failed\\n");""", "ERRD.read")
+M("C17", "tmat: count lower bounds dropped", "src/tmat.c", "    if (n_tmat <= 0 || n_src <= 0) {", "    if (n_tmat == 0) {", "TAINT.lower")
+M("C17", "tmat: topology fatal again", "src/tmat.c", """        E_ERROR("Tmat not upper triangular\\n");
+        goto error_out;""", """        E_FATAL("Tmat not upper triangular\\n");""", "EXIT.loader")
+M("C17", "acmod: tmat_init result not tested", "src/acmod.c", """    if ((acmod->tmat = tmat_init(tmatfn, acmod->lmath,
+                                 config_float(acmod->config, "tmatfloor")))
+        == NULL) {
+        E_ERROR("Failed to read transition matrices from %s\\n", tmatfn);
+        return -1;
+    }""", """    acmod->tmat = tmat_init(tmatfn, acmod->lmath,
+                                 config_float(acmod->config, "tmatfloor"));""", "ERRD.null")
+M("C17", "read_mixw: component test dropped", "src/ptm_mgau.c", """    if (n_comp != g->n_density) {
+        E_ERROR("#Mixture components(%d) != %d\\n", n_comp, g->n_density);
+        return -1;
+    }
+""", "", "INDEX.dims")
+M("C17", "ms_mgau: mismatch fatal again", "src/ms_mgau.c", """    if (s->n_cw != (uint32)g->n_density) {
+        E_ERROR("#Densities mismatch: gauden= %d, senone= %d\\n",
+                g->n_density, s->n_cw);
+        goto error_out;
+    }""", """    if (s->n_cw != (uint32)g->n_density)
+        E_FATAL("#Densities mismatch: gauden= %d, senone= %d\\n",
+                g->n_density, s->n_cw);""", "EXIT.loader", first=True)
+M("C17", "senone_mixw_read: row buffer leaked on success", "src/ms_senone.c", """           s->n_sen, s->n_feat, s->n_cw);
+    ckd_free(pdf);
+    return 0;""", """           s->n_sen, s->n_feat, s->n_cw);
+    return 0;""", "UNWIND")
+M("C17", "senone: one-senone fatal again", "src/ms_senone.c", """                E_ERROR("#senone=%d; must be >1\\n", s->n_sen);
+                goto error_out;""", """                E_FATAL("#senone=%d; must be >1\\n", s->n_sen);""", "EXIT.loader")
+M("C17", "lda: checksum result ignored", "src/lda.c", """    if (s3file_verify_chksum(s) != 0) {
+        ckd_free_3d(outlda);
+        return -1;
+    }""", """    s3file_verify_chksum(s);""", "ERRD.read")
+M("C17", "new raw cursor writer outside the audited set", "src/lda.c", """    if (s3file_parse_header(s, MATRIX_FILE_VERSION) < 0) {""", """    s->ptr += 0;
+    if (s3file_parse_header(s, MATRIX_FILE_VERSION) < 0) {""", "CURSOR")
+M("C17", "tmat: new exit on file value", "src/tmat.c", """    t->n_state = n_src;
+""", """    t->n_state = n_src;
+    if (n_src > 100)
+        E_FATAL("too many states\\n");
+""", "EXIT.loader")
+M("C17", "benign: gauden count test as < 1", "src/ms_gauden.c", "    if (n_mgau <= 0 || n_feat <= 0 || n_density <= 0) {", "    if (n_mgau < 1 || n_feat < 1 || n_density < 1) {", None, "benign")
